@@ -36,6 +36,7 @@ type listerRun struct {
 	stopLat  time.Duration // virtual time from stop request to Done
 	deadlock string
 	total    time.Duration
+	failed   []string // results reported as failed before the stop request although the client never failed
 }
 
 type slowLister struct {
@@ -87,12 +88,15 @@ func runLister(c *Ctx, r *listerRun) {
 		quit := make(chan struct{})
 		go func() {
 			for {
-				_, _, ok := l.Recv(quit)
+				_, err, ok := l.Recv(quit)
 				if !ok {
 					return
 				}
 				mu.Lock()
 				r.trace = append(r.trace, tev{2, time.Since(start)})
+				if err != nil && r.fail == nil {
+					r.failed = append(r.failed, fmt.Sprintf("%v at %v", err, time.Since(start)))
+				}
 				mu.Unlock()
 				if r.D > 0 {
 					select {
@@ -157,6 +161,10 @@ func runC13(c *Ctx) {
 			c.Violation("", fmt.Sprintf("lister stops only after %v of virtual time", r.stopLat), replay)
 		} else if r.deadlock != "" {
 			c.Violation("", "goroutines left blocked after the lister stopped", replay)
+		}
+		// a list call the client would have answered is never given up on
+		if len(r.failed) > 0 && r.stopAt == 0 {
+			c.Violation("", fmt.Sprintf("the lister reports a failed list although the client never failed (it only took its time): %s (period=%v latency=%v delay=%v)", r.failed[0], r.P, r.L, r.D), replay)
 		}
 		// progress: lists keep being issued
 		starts, consumed := 0, 0
